@@ -3,3 +3,7 @@ package main
 // contractWarnings collects non-fatal problems found while loading contract files
 // (duplicates). `verify` prints them; `check` refuses to run with any.
 var contractWarnings []string
+
+// rootPatForAppend: set while the loop frame pattern of an append destination is computed
+// (an in-place append writes beyond len, up to cap).
+var rootPatForAppend bool
